@@ -36,6 +36,11 @@ CLAIMS = {
   'text': 'Partial, structural: the hard-coded multi-word constants equal 5^149 and 5^1074 (the scale literals they are used with); NaN/Infinite map to Err, Subnormal to the subnormal routine, Normal/Zero to the normal routine for f32 and f64 (exhaustive over FpCategory); the unchecked converters are reachable only through those classifiers and every TryFrom/FromPrimitive float entry goes through them. NOT decided: the bit-field arithmetic, exactness of the conversion, all of to_f64.',
   'note': TRUST + ' BigUint::from_slice assembles little-endian u32 words.',
  },
+ 'C15': {
+  'technique': 'static analysis: sign-dispatch decision tables from the CFG; structural forwarder and projection checks on path outcome terms; forbidden-callee reachability over the resolved call graph',
+  'text': 'Partial, structural: to_u64/to_u128 map negative decimals to None and zero to Some(0), to_i64/to_i128 map zero to Some(0), and every other (sign, scale==0?) cell ends in a checked integer conversion of the digits or of the value truncated to scale 0 (24 cells, exhaustive over the dispatch atoms); the owned ToPrimitive methods return the same-named method of self.to_ref(); all 20 From<int>/From<&int>, From<BigInt>, From<(T,i64)>, FromPrimitive::from_i*/u*, ToBigInt are exact projections with scale literal 0; no flooring/euclidean division is reachable from the conversions or the truncating rescale. NOT decided: the MIN boundary arithmetic, is_integer.',
+  'note': TRUST + ' num-bigint `/` truncates toward zero; BigInt/BigUint::to_<int> returns None exactly on overflow.',
+ },
 }
 _PENDING = 'check not built yet in this commit (implementation in progress, see DESIGN.md section 8)'
 NOT_APPLICABLE = {('C%02d' % i): _PENDING for i in range(1, 21) if ('C%02d' % i) not in CLAIMS}
